@@ -113,7 +113,8 @@ NoCall == [fn |-> "none", idx |-> <<>>, iv |-> 0, thr |-> 0, norm |-> FALSE]
 NoRes == [t |-> "none", f |-> [x |-> <<>>, y1 |-> <<>>, y2 |-> <<>>], v |-> Zero, mat |-> <<>>, lst |-> <<>>, lst2 |-> <<>>]
 DegTrains == {s \in AllTrains : Len(s) <= 1} \cup ({<<TS, TE>>, <<TS+1, TE-1>>} \cap AllTrains)
 BasePool == IF PoolMode = "deg" THEN DegTrains ELSE AllTrains
-Pool == IF Sample = 0 THEN BasePool ELSE RandomSubset(Sample, BasePool)
+\* a sampled pool always contains the empty train (lists with empty and repeated trains matter)
+Pool == IF Sample = 0 THEN BasePool ELSE RandomSubset(Sample, BasePool) \cup {<<>>}
 Init == tr \in [1..N -> {<<>>}] /\ call = NoCall /\ res = NoRes
 \* two steps so that TLC's workers share the enumeration of the lists
 PickFirst == /\ call.fn = "none" /\ \A k \in 1..N : tr[k] = <<>> /\ res.t = "none"
